@@ -566,7 +566,7 @@ class NDNApp:
         try:
             data_name, content, pkt_context = await aio.wait_for(future, timeout=lifetime/1000.0)
         except TimeoutError:
-            if node.timeout(future):
+            if node.timeout(future) and self._pit.get(node_name) is node:
                 del self._pit[node_name]
             raise types.InterestTimeout()
         except aio.CancelledError:
